@@ -17,9 +17,10 @@
 (* ("setup_other": a SETUP whose authorization was computed for any other  *)
 (* URL - another stream, a shorter prefix of the base URL - is refused).   *)
 (*                                                                         *)
-(* Wire(creds, status, kept): a request on a real connection carrying no / *)
-(* wrong / right credentials while the application reports an              *)
-(* authentication failure for the first two.                               *)
+(* Wire(creds, status, kept, sent): a request on a real connection         *)
+(* carrying no / wrong / right credentials while the application reports   *)
+(* an authentication failure for the first two; or an authorization that   *)
+(* was accepted, replayed on another request of the same connection.       *)
 (***************************************************************************)
 EXTENDS Naturals
 
@@ -48,10 +49,16 @@ Verify(sent, pert, enabledHas, accepted) ==
   /\ accepted = MustAccept(sent, pert, enabledHas)     \* complete AND sound
   /\ nverify' = nverify + 1 /\ UNCHANGED nwire
 
-Wire(creds, status, kept) ==
+\* sent: the scheme of the authorization (only looked at for replays).
+\* replay_url / replay_method: an authorization accepted for one request, attached unchanged to a
+\* request of the same connection with another URL / another method. A Digest authorization was
+\* computed for the first request: these are wrong credentials. A Basic one depends on neither.
+Wire(creds, status, kept, sent) ==
   /\ CASE creds = "none"  -> status = 401 /\ kept      \* challenged, connection kept
        [] creds = "wrong" -> ~kept                     \* connection ended
        [] creds = "right" -> status >= 200 /\ status <= 299 /\ kept
+       [] creds \in {"replay_url", "replay_method"} ->
+            IF sent = "basic" THEN kept /\ status # 401 ELSE ~kept
        [] OTHER -> FALSE
   /\ nwire' = nwire + 1 /\ UNCHANGED nverify
 =============================================================================
